@@ -84,7 +84,7 @@ type Settings struct {
 	IfaceErr     string `json:"iface_err,omitempty"`
 	ClockSec     int64  `json:"clock_sec,omitempty"`
 	ClockNsec    int64  `json:"clock_nsec,omitempty"`
-	// LevelMarshal: "" default (Level.String) | upper | total (a total mapping in the style of syslog
+	// LevelMarshal: "" default (Level.String) | upper | merged (not injective: trace=debug, error=fatal=panic) | total (a total mapping in the style of syslog
 	// severities: every level, NoLevel and Disabled included, has a non-empty text of its own)
 	LevelMarshal string `json:"level_marshal,omitempty"`
 	// GlobalLow: 0 = global level Trace (the default); n > 0 = SetGlobalLevel(Level(-n)), which
@@ -113,6 +113,7 @@ type HookSpec struct {
 //	sample  l.Sample(...)  (Sampler: all | none | basicN)
 //	output  l.Output(new buffer)
 //	update  l.UpdateContext(Ops)  (only directly after a with step)
+//	updatedefault  zerolog.Ctx(context.Background()).UpdateContext(Ops); the node is a copy of that logger afterwards
 type Step struct {
 	Kind    string     `json:"kind"`
 	From    *int       `json:"from,omitempty"` // parent node: nil = the previous node (chain); -1 = root; i = result of Steps[i]
